@@ -40,6 +40,38 @@ func boxHistoryOpt(c *vfCase, mon boxMonFlags, o boxOpts, genSeed, schedSeed uin
 		}
 		// a fresh fault plan for the new instance
 		cb.faultPlan = boxFaultPlan(g.r)
+		if g.r.Chance(1, 3) {
+			// the first listing(s) of all Services by the new instance fail: its initial load is retried;
+			// meanwhile ordinary events arrive for services that are still waiting for an address
+			cb.k.FailServiceLists = g.r.Range(1, 2)
+			var pending []string
+			for _, k := range vfSortedKeys(cb.k.Store.Services) {
+				if svc := cb.k.Store.Services[k]; len(svc.Status.LoadBalancer.Ingress) == 0 && svc.Spec.Type == v1.ServiceTypeLoadBalancer {
+					pending = append(pending, k)
+				}
+			}
+			vfShuffle(g.r, pending)
+			for i, k := range pending {
+				if i >= 3 {
+					break
+				}
+				victim := k
+				ev := boxUserEvent{Kind: "svc-labels-while-loading", Apply: func(s *boxStore) string {
+					svc := s.Services[victim]
+					if svc == nil {
+						return "skipped (gone)"
+					}
+					n := svc.DeepCopy()
+					if n.Annotations == nil {
+						n.Annotations = map[string]string{}
+					}
+					n.Annotations["example.com/touched"] = fmt.Sprint(len(n.Annotations))
+					s.Put(n)
+					return victim
+				}}
+				cb.k.Pending = append([]boxUserEvent{ev}, cb.k.Pending...)
+			}
+		}
 		// hostile timing: every other restart, a service that has an address recorded is deleted (or
 		// re-typed) while the new instance is still loading
 		if g.r.Bool() {
@@ -264,6 +296,13 @@ func TestVerif_C03(t *testing.T) {
 		"non-trivial = distinct (untouched service with admissible addresses, window with foreign events or configuration versions)")
 }
 
+func TestVerif_C04(t *testing.T) {
+	// controller side of "all Services sharing an address elect the same node": exhaustion bias, so that
+	// dual-stack services with one sharing key end up on the same addresses
+	boxRunOpt(t, "C04", boxMonFlags{c04: true}, func(c *vfCase) boxOpts { return boxOpts{events: 24, epochMax: 2, tight: c.Idx%2 == 0} }, vfSizes{Quick: 500, Thorough: 3000},
+		"at every quiescent point Services whose statuses share an address must list the same first address (the key of the speakers' election); non-trivial = distinct shared address among multi-address services")
+}
+
 func TestVerif_C07(t *testing.T) {
 	// half of the histories are drawn with the exhaustion bias (1-2 pools of 1-4 addresses, one dominant
 	// sharing key, two ports)
@@ -273,7 +312,7 @@ func TestVerif_C07(t *testing.T) {
 			o.epochMax = 3 // user events may arrive while a failed write is waiting for its retry
 		}
 		return o
-	}, vfSizes{Quick: 160, Thorough: 3000},
+	}, vfSizes{Quick: 400, Thorough: 3000},
 		"non-trivial = distinct quiescent point with a pending service whose admissible set the oracle found empty")
 }
 
@@ -496,7 +535,7 @@ func boxFaultPlan(r *vfRand) []int {
 
 func TestVerif_C06(t *testing.T) {
 	rule := "each base history is first executed crash-free to enumerate its crash points (every scheduler yield, before/after every status write, after every user event), then re-executed with one crash at selected points (quick: up to 10 incl. status-write boundaries; thorough: up to 60) and a fault plan of <= 4 failing status writes (before/after apply); non-trivial = distinct (crash point label, pending/recorded constellation at the crash instant)"
-	vfMain(t, "C06", vfSizes{Quick: 15, Thorough: 60}, boxRule+rule, func(c *vfCase) {
+	vfMain(t, "C06", vfSizes{Quick: 30, Thorough: 80}, boxRule+rule, func(c *vfCase) {
 		genSeed, schedSeed := c.R.U64(), c.R.U64()
 		o := boxOpts{events: 18, epochMax: 3}
 		dry := boxHistoryOpt(c, boxMonFlags{}, o, genSeed, schedSeed, 0, nil, true)
